@@ -270,6 +270,14 @@ pub fn sfacts(recs: &[Rec]) -> SFacts {
                         }
                     }
                 }
+                // ... and a refusal whose write failed is still a refusal (the peer will not see it,
+                // which is the transport's failure, reported as such)
+                if let (Op::Send, Some(Msg::Resp { id, body: Err(_) })) = (op, msg) {
+                    let p = f.inst.values().filter(|o| o.id == *id && o.yielded.is_none() && o.throttled.is_none()).map(|o| o.p).last();
+                    if let Some(p) = p {
+                        f.inst.get_mut(&p).unwrap().throttled = Some(i);
+                    }
+                }
             }
             Rec::S("stream_err_served_on", _) => f.served_on_errors.push(i),
             Rec::T { side: 1, op: Op::Send, res: Res::Ok, msg: Some(m), .. } => {
@@ -1271,7 +1279,14 @@ fn c12(cfg: &SCfg, e: &Exec, f: &SFacts, vs: &mut Vec<Violation>, nt: &mut bool)
                 );
             }
         } else if !i.maybe_tracked_at_handover {
-            v(vs, "C12-dropped", cfg, format!("request id {} was neither executed nor refused", i.id));
+            // a request read in the very poll that reported a transport failure is lost with it
+            // (C09: serving stops at a transport failure - an application that polls on regardless
+            // gets what is left)
+            let e1 = f.poll_end_after(i.handed);
+            let lost_in_failed_poll = e1 != usize::MAX && f.served_on_errors.iter().any(|x| *x > e1 && *x <= e1 + 3);
+            if !lost_in_failed_poll {
+                v(vs, "C12-dropped", cfg, format!("request id {} was neither executed nor refused", i.id));
+            }
         }
     }
     // refusal responses: exactly one each, kind WouldBlock
@@ -1512,7 +1527,9 @@ pub fn configs(prop: SProp, tier: Tier) -> Vec<SCfg> {
                                 out.push(base(vec![r0.clone(), r1.clone()], limit, 1, *fl, *cap, alpha));
                                 // (limit 2 with three requests is where re-introducing D-C06b,
                                 // one expiry per poll, shows within two deviations)
-                                if limit.is_some() || thorough {
+                                // (quick tier: only there, and not with two long deadlines - the
+                                // three-request shapes are what the quick tier spends its time on)
+                                if thorough || (limit == Some(2) && (d1 != 10_000 || *d0 <= 50)) {
                                     let mut r2 = ReqCfg::simple(2, true);
                                     r2.deadline_ms = 50;
                                     out.push(base(vec![r0, r1, r2], limit, 1, *fl, *cap, alpha));
@@ -1764,6 +1781,19 @@ pub fn configs(prop: SProp, tier: Tier) -> Vec<SCfg> {
                                     out.push(c);
                                 }
                             }
+                        }
+                    }
+                    // the write of a refusal fails once (the application logs the error and keeps
+                    // serving): the refused request is gone all the same, later requests are admitted
+                    // while fewer than L are in flight (seeded change C12j untracked a request only after
+                    // its response had been handed to the transport)
+                    if (1..=2).contains(&l) && *cap == 1 {
+                        for k in 1..=2u32 {
+                            let rs: Vec<ReqCfg> = (0..(l as u64 + 2)).map(|i| ReqCfg::simple(i, true)).collect();
+                            let mut c = base(rs, Some(l), 1, *fl, *cap, S_FINISH | S_DRAIN);
+                            c.fault = Some(Fault { op: Op::Send, k, sticky: false, eof: false });
+                            c.serve_on_after_error = true;
+                            out.push(c);
                         }
                     }
                     // the application gives up several requests between two polls of the channel (their
